@@ -213,6 +213,10 @@ class ieee_zero_sums:
 
 RTN_CAUSE = 'exactly-zero sum under RTN: interpreter +0, IEEE 754 and compiled code -0'
 
+# cause classification only: `vector<handle>(n, make_shared<...>(...))` copies ONE row handle n times
+EMPTY_CAUSE = 'empty(n, m, ...) with boxed rows: every row is the same shared handle'
+EMPTY_SHARED_RE = re.compile(r'\((?:static_cast<uint64_t>\([^()]*\)|\w+), std::make_shared<std::vector<')
+
 
 def canon(v):
     """interpreter value -> ('n', kind, sign, Fraction) | ('b', bool) | ('l', [...]) | ('t', [...])"""
@@ -747,6 +751,14 @@ class Check(BaseCheck):
                                   f'(+0) + (-0) give -0 under RTN as IEEE 754-2019 6.3 requires)\n'
                                   f'--- program ---\n{prog.src}--- emitted ---\n{b.text}')
                         continue
+                if (not ok_ret or (exp_arg is not None and not same(exp_arg, arg0))) and EMPTY_SHARED_RE.search(b.text):
+                    r.outcomes['disagree:empty-rows-share-handle'] += 1
+                    r.violate({'kind': 'return value', 'cause': EMPTY_CAUSE}, case,
+                              f'{prog.shape} [{"; ".join(opt_label(o) for o in b.opts)}] args={vec!r}\n'
+                              f'{first_diff(exp_ret, ret)}\ninterpreter: {show(exp_ret)}\ncompiled:    {show(ret)}\n'
+                              f'(the emitted code fills the outer list with n copies of one row handle)\n'
+                              f'--- program ---\n{prog.src}--- emitted ---\n{b.text}')
+                    continue
                 if not ok_ret:
                     r.violate({'kind': 'return value', 'diff': diff_class(exp_ret, ret), 'family': prog.desc[0],
                                'shape': prog.shape, 'unbox': b.opts[0][1], 'optimize': b.opts[0][0]}, case,
